@@ -132,31 +132,19 @@ def body(c):
     runs, ops = (120, 60) if q else (1500, 120)
     tpath = os.path.join(c.work, "trace.ndjson")
     c.vh(["c13", "record", runs, ops, tpath])
-    # known finding: the bit window does not stop at an unaligned `end`; pre-classify window sessions
+    # known finding c13:window-end-unaligned as a named deviation of the trace specification: while the finding is
+    # open the specification follows the crate past an unaligned window end (and counts how often), so that every
+    # session is validated to its end; once the finding is closed the window ends at `end` and such reads are rejected
     evs = read_ndjson(tpath)
-    cur = None
+    allow = c.fingerprint_known("c13:window-end-unaligned") is not None
     def describe(ev):
-        return (ev.get("_fp") or "c13:trace", json.dumps({k: v for k, v in ev.items() if k != "_fp"})[:400])
-    # annotate read events with their session's window so that describe() can fingerprint by cause
-    sessions = []
-    for ev in evs:
-        if ev["ev"] in ("from", "window"):
-            cur = {"start": ev, "reads": []}
-            sessions.append(cur)
-        if ev["ev"] == "r" and cur is not None:
-            cur["reads"].append(ev)
-    for se in sessions:
-        st = se["start"]
-        if st["ev"] == "window" and st["e"] % 8 != 0 and se["reads"]:
-            fp = window_fp(st, [(e["op"], e["maxb"], e["bound"]) for e in se["reads"]],
-                           [(e["res"], e["total"]) for e in se["reads"]])
-            if fp:
-                for e in se["reads"]:
-                    e["_fp"] = fp
-    with open(tpath, "w") as f:
-        for ev in evs:
-            f.write(json.dumps(ev) + "\n")
-    validate_trace(c, "Trace_BitStream", "Trace_BitStream.cfg", tpath, describe, max_rejects=40, count_runs=False)
+        return ("c13:window-end-unaligned-strict" if not allow and ev.get("ev") == "r" else "c13:trace", json.dumps(ev)[:400])
+    c.deviations = 0
+    validate_trace(c, "Trace_BitStream", "Trace_BitStream.cfg", tpath, describe, max_rejects=8, count_runs=False,
+                   env={"OVERRUN": "allow" if allow else "deny"})
+    if c.deviations:
+        c.report("c13:window-end-unaligned", "%d recorded reads on windows with an unaligned end returned bits beyond `end`" % c.deviations, {"reads_past_end": c.deviations})
+        c.extra["reads_past_unaligned_window_end"] = c.deviations
     c.traces += runs
     c.sample({"impl->spec events": evs[1:4]})
     c.assumptions += ["usize behaves like u32 in read_natural (checked: both are driven and must agree)",
